@@ -6,18 +6,18 @@ mkdir -p $OUT
 cd $WT || exit 9
 T=$(/venv/bin/python -m pytest -q -p no:cacheprovider --continue-on-collection-errors tests 2>&1 | tail -n 1)
 echo "tests(with change): $T"
-/venv/bin/python _seed/demo.py > /tmp/seed-demo-with.txt 2>&1; RC_WITH=$?
-git diff > /tmp/seed-cur.diff
+/venv/bin/python _seed/demo.py > /tmp/seed-$NAME-with.txt 2>&1; RC_WITH=$?
+git diff > /tmp/seed-$NAME-cur.diff
 git checkout -q -- .
-/venv/bin/python _seed/demo.py > /tmp/seed-demo-without.txt 2>&1; RC_WITHOUT=$?
-git apply /tmp/seed-cur.diff
+/venv/bin/python _seed/demo.py > /tmp/seed-$NAME-without.txt 2>&1; RC_WITHOUT=$?
+git apply /tmp/seed-$NAME-cur.diff
 echo "demo rc with change=$RC_WITH without=$RC_WITHOUT"
 git diff > $OUT/patch.diff
 cp _seed/demo.py $OUT/demo.py
 cd /verif
-VF_REPO=$WT ./check $P --tier $TIER --no-evidence $ONLY > /tmp/seed-check.txt 2>&1; RC=$?
-grep -E "VIOLATION|HARNESS|INCONCL| quick:| thorough:" /tmp/seed-check.txt | cut -c1-220
-CAUGHT=$(grep -c "^VIOLATION" /tmp/seed-check.txt)
+VF_REPO=$WT ./check $P --tier $TIER --no-evidence $ONLY > /tmp/seed-$NAME-check.txt 2>&1; RC=$?
+grep -E "VIOLATION|HARNESS|INCONCL| quick:| thorough:" /tmp/seed-$NAME-check.txt | cut -c1-220
+CAUGHT=$(grep -c "^VIOLATION" /tmp/seed-$NAME-check.txt)
 python3 - "$P" "$WT" "$NAME" "$T" "$RC_WITH" "$RC_WITHOUT" "$RC" "$CAUGHT" "$TIER" <<'PY'
 import json, sys, os, re
 P, WT, NAME, T, rw, rwo, rc, caught, tier = sys.argv[1:]
@@ -26,7 +26,7 @@ try:
     meta = json.load(open(os.path.join(WT, "_seed", "meta.json")))
 except Exception as e:
     meta = {"note": "agent meta.json unreadable: %s" % e}
-claims = sorted(set(re.findall(r"counterexample for claim (.*?) reproduced", open("/tmp/seed-check.txt").read())))
+claims = sorted(set(re.findall(r"counterexample for claim (.*?) reproduced", open("/tmp/seed-%s-check.txt" % NAME).read())))
 meta.update({"property": P, "confirmed": {"existing_tests_with_change": T, "demo_exit_with_change": int(rw), "demo_exit_without_change": int(rwo)},
   "check": {"command": "VF_REPO=<worktree with patch> ./check %s --tier %s --no-evidence" % (P, tier), "exit": int(rc), "violation_lines": int(caught), "claims_reporting": claims}})
 json.dump(meta, open("/verif/seeded/%s/meta.json" % NAME, "w"), indent=1)
